@@ -33,6 +33,8 @@ type rtCase struct {
 	IssuerKU   int  // key usage of the issuer certificate
 	IssuerSKI  bool // issuer template carries an explicit subject key id
 	ParentX509 bool // hand the parent over as *x509.Certificate instead of *smx509.Certificate
+	Scribble   bool // overwrite the template and every byte-slice argument right after each call returns
+	EmptyNil   bool // hand zero-length template slices over as empty non-nil slices instead of nil
 	Spec       certSpec
 }
 
@@ -403,10 +405,28 @@ func checkCertRoundTrip(c rtCase, r *h.Rec) error {
 	}
 	r.Label("bc-%d", s.BC)
 
-	tmpl := toTemplate(s)
+	// tmpl stays pristine for the comparisons; use is what the library sees
+	tmpl, use := toTemplate(s), toTemplate(s)
 	alg := sigAlgFor(signerKT, c.AlgVariant)
-	tmpl.SignatureAlgorithm = alg
+	tmpl.SignatureAlgorithm, use.SignatureAlgorithm = alg, alg
 	alg = effectiveAlg(signerKT, alg)
+	if c.EmptyNil {
+		emptyNotNil(use)
+		r.Label("template-empty-not-nil")
+	}
+	if c.Scribble {
+		r.Label("scribbled")
+	}
+	for _, e := range s.Extra {
+		switch {
+		case e.FillLen > 60000:
+			r.Label("ext-len-around-65536")
+		case e.FillLen > 140:
+			r.Label("ext-len-around-256")
+		case e.FillLen > 0:
+			r.Label("ext-len-around-128")
+		}
+	}
 	r.Label("alg-%v", algName(alg))
 
 	var (
@@ -421,9 +441,9 @@ func checkCertRoundTrip(c rtCase, r *h.Rec) error {
 	if c.SelfSigned {
 		signer = newKey(signerKT, c.Seed, false)
 		subjPub = signer.Public()
-		parentArg = tmpl
+		parentArg = use
 		if c.ParentX509 {
-			parentArg = (*smx509.Certificate)(tmpl)
+			parentArg = (*smx509.Certificate)(use)
 		}
 		wantAKI = s.AKI
 		gate = gateOK(s.BC, s.KeyUsage)
@@ -453,9 +473,17 @@ func checkCertRoundTrip(c rtCase, r *h.Rec) error {
 		r.Label("issuer-gate-%v", gate)
 	}
 
-	der, err := smx509.CreateCertificate(gen.NewDetReader(gen.Mix(c.Seed, 0xc5)), tmpl, parentArg, subjPub, signer)
+	der, err := smx509.CreateCertificate(gen.NewDetReader(gen.Mix(c.Seed, 0xc5)), use, parentArg, subjPub, signer)
 	if err != nil {
 		return fmt.Errorf("CreateCertificate refused a template of the documented domain: %v", err)
+	}
+	if c.Scribble {
+		// the returned DER must not refer to template memory
+		snapshot := append([]byte{}, der...)
+		scribbleCertTemplate(use)
+		if !bytes.Equal(der, snapshot) {
+			return fmt.Errorf("the certificate returned by CreateCertificate changed when the template was overwritten afterwards")
+		}
 	}
 	in := append([]byte{}, der...)
 	got, err := smx509.ParseCertificate(in)
@@ -493,8 +521,32 @@ func checkCertRoundTrip(c rtCase, r *h.Rec) error {
 			return fmt.Errorf("CheckSignatureFrom accepted (err=%v) a parent that is not a CA entitled to sign certificates (basic constraints / key usage)", err)
 		}
 	}
-	if err := parent.CheckSignature(got.SignatureAlgorithm, got.RawTBSCertificate, got.Signature); err != nil {
+	// private copies of the byte-slice arguments, with spare capacity behind them,
+	// overwritten after the call; the parsed objects are then used again
+	tbsArg := append(make([]byte, 0, len(got.RawTBSCertificate)+16), got.RawTBSCertificate...)
+	sigArg := append(make([]byte, 0, len(got.Signature)+16), got.Signature...)
+	if err := parent.CheckSignature(got.SignatureAlgorithm, tbsArg, sigArg); err != nil {
 		return fmt.Errorf("issuer.CheckSignature fails on a fresh certificate: %v (der=%s)", err, h.Hex(der))
+	}
+	if !bytes.Equal(tbsArg, got.RawTBSCertificate) || !bytes.Equal(sigArg, got.Signature) {
+		return fmt.Errorf("CheckSignature modified its arguments")
+	}
+	if c.Scribble {
+		fillGarbage(tbsArg)
+		fillGarbage(sigArg)
+		// a failed check in between must leave nothing behind
+		if err := parent.CheckSignature(got.SignatureAlgorithm, tbsArg, sigArg); err == nil {
+			return fmt.Errorf("CheckSignature accepts garbage")
+		}
+		if err := parent.CheckSignature(got.SignatureAlgorithm, got.RawTBSCertificate, got.Signature); err != nil {
+			return fmt.Errorf("issuer.CheckSignature fails on the second use of the same parsed certificates (after a failed check with other arguments): %v (der=%s)", err, h.Hex(der))
+		}
+		if err2 := got.CheckSignatureFrom(parent); (err2 == nil) != gate {
+			return fmt.Errorf("CheckSignatureFrom gives another answer (%v) on its second use", err2)
+		}
+		if !bytes.Equal(got.Raw, der) {
+			return fmt.Errorf("the parsed certificate's Raw changed during signature checks")
+		}
 	}
 	ok, _, verr := indepVerify(der, parentSPKI)
 	if verr != nil {
@@ -571,6 +623,8 @@ func genRTCase(rt *rapid.T, signerPool []int) rtCase {
 		IssuerKU:   rapid.SampledFrom([]int{0, 96, 96, 32, 96, 33, 511, 1, 64, 479}).Draw(rt, "issuer-ku"),
 		IssuerSKI:  rapid.Bool().Draw(rt, "issuer-ski"),
 		ParentX509: rapid.Bool().Draw(rt, "parent-x509"),
+		Scribble:   rapid.IntRange(0, 2).Draw(rt, "scribble") > 0,
+		EmptyNil:   rapid.IntRange(0, 3).Draw(rt, "empty-not-nil") == 0,
 	}
 	if c.SubjKT == kRSAPSS {
 		c.SubjKT = kRSA // the same subject key; PSS is a property of the signature
